@@ -114,44 +114,54 @@ def gen_case(rng, k, real):
     return pairs, model, feats
 
 
+def _fields(w, v3):
+    f = {"digests": w.signed_data.digests, "signatures": w.signatures, "certificates": w.signed_data.certificates,
+         "attributes": w.signed_data.attributes_bytes(), "public-key": w.public_key}
+    if v3:
+        f["signed-data-sdk"] = [w.signed_data.min_sdk, w.signed_data.max_sdk]
+        f["signer-sdk"] = [w.min_sdk, w.max_sdk]
+    return f
+
+
+def _got_fields(g, v3):
+    f = {"digests": [(a, bytes(b)) for a, b in g.signed_data.digests], "signatures": [(a, bytes(b)) for a, b in g.signatures],
+         "certificates": [bytes(c) for c in g.signed_data.certificates], "attributes": bytes(g.signed_data.additional_attributes), "public-key": bytes(g.public_key)}
+    if v3:
+        f["signed-data-sdk"] = [g.signed_data.minSDK, g.signed_data.maxSDK]
+        f["signer-sdk"] = [g.minSDK, g.maxSDK]
+    return f
+
+
 def cmp_signers(report, scheme, v3, got, want, alternatives):
-    """compare androguard's signer objects with the model signers; report(mechanism, what, detail)"""
+    """compare androguard's signer objects with the model signers of the first pair; alternatives = signers of later pairs with
+    the same id (a complete match with one of them is reported as 'later block used')"""
+    gf = [_got_fields(g, v3) for g in got]
+    wf = [_fields(w, v3) for w in want]
+    if gf == wf:
+        return
+    def same_but_first_only(g, w):
+        # equality up to the separately reported "only first element" symptom, used only to recognise WHICH pair was reported
+        return len(g) == len(w) and all(x[k] == y[k] or (k in ("digests", "signatures") and len(y[k]) > 1 and x[k] == y[k][:1]) for x, y in zip(g, w) for k in y)
+
+    for alt in alternatives:
+        af = [_fields(w, v3) for w in alt]
+        if same_but_first_only(gf, af) and not same_but_first_only(gf, wf):
+            report("%s-duplicate-id-later-block-used" % scheme, "the signers of a later pair with the same id are reported instead of the first pair's", {"got_signers": len(got), "want_signers": len(want)})
+            return
     if len(got) != len(want):
-        for alt in alternatives:
-            if len(alt) == len(got) and all(g.public_key == w.public_key for g, w in zip(got, alt)):
-                report("%s-duplicate-id-later-block-used" % scheme, "signers of a later pair with the same id are reported instead of the first pair's", {"got_signers": len(got), "want_signers": len(want)})
-                return
         report("%s-signer-count-differs" % scheme, "number of signers reported differs from the encoded one", {"got_signers": len(got), "want_signers": len(want)})
         return
-    for i, (g, w) in enumerate(zip(got, want)):
-        fields = [("digests", list(g.signed_data.digests), w.signed_data.digests), ("signatures", list(g.signatures), w.signatures),
-                  ("certificates", list(g.signed_data.certificates), w.signed_data.certificates),
-                  ("attributes", bytes(g.signed_data.additional_attributes), w.signed_data.attributes_bytes()),
-                  ("public-key", bytes(g.public_key), w.public_key)]
-        if v3:
-            fields += [("signed-data-sdk", [g.signed_data.minSDK, g.signed_data.maxSDK], [w.signed_data.min_sdk, w.signed_data.max_sdk]),
-                       ("signer-sdk", [g.minSDK, g.maxSDK], [w.min_sdk, w.max_sdk])]
-        for name, gv, wv in fields:
-            if name in ("digests", "signatures"):
-                gv = [(a, bytes(b)) for a, b in gv]
-            elif name == "certificates":
-                gv = [bytes(c) for c in gv]
+    for i, (g, w) in enumerate(zip(gf, wf)):
+        for name in w:
+            gv, wv = g[name], w[name]
             if gv == wv:
                 continue
-            detail = {"signer": i, "field": name, "got": gv if not isinstance(gv, list) else [list(x) if isinstance(x, tuple) else x for x in gv],
-                      "want": wv if not isinstance(wv, list) else [list(x) if isinstance(x, tuple) else x for x in wv]}
+            lst = lambda v: [list(x) if isinstance(x, tuple) else x for x in v] if isinstance(v, list) else v
+            detail = {"signer": i, "field": name, "got": lst(gv), "want": lst(wv)}
             if name in ("digests", "signatures") and len(wv) > 1 and gv == wv[:1]:
                 report("digest-or-signature-sequence-only-first-element", "a digest/signature sequence with several elements is reported with its first element only", detail)
-            elif any(len(alt) == len(want) and _field_of(alt[i], name, v3) == gv for alt in alternatives):
-                report("%s-duplicate-id-later-block-used" % scheme, "content of a later pair with the same id is reported instead of the first pair's", detail)
             else:
                 report("%s-%s-differs" % (scheme, name), "signer field reported differs from the encoded bytes", detail)
-
-
-def _field_of(w, name, v3):
-    return {"digests": w.signed_data.digests, "signatures": w.signatures, "certificates": w.signed_data.certificates,
-            "attributes": w.signed_data.attributes_bytes(), "public-key": w.public_key,
-            "signed-data-sdk": [w.signed_data.min_sdk, w.signed_data.max_sdk], "signer-sdk": [w.min_sdk, w.max_sdk]}[name]
 
 
 def observe(ctx, APK, raw, pairs, model, order, witness, real=None):
